@@ -69,6 +69,16 @@ Theorem reconstructed_parts_have_no_CR_LF :
 Proof. exact reconstructed_clean. Qed.
 Print Assumptions reconstructed_parts_have_no_CR_LF.
 
+(** The rate-limited output queue (lineRate set) is a FIFO: for ANY interleaving of sendLine calls
+    and timer ticks, what has been written so far followed by what is still queued is exactly the
+    sequence of lines handed to sendLine, in that order; and once the clock has ticked as often as
+    there are queued lines, everything has been written, in that order. *)
+Theorem rate_limited_queue_is_fifo : forall ops : list qop,
+  q_sent (q_run q_init ops) ++ q_queue (q_run q_init ops) = q_sends ops
+  /\ q_sent (q_run (q_run q_init ops) (repeat QTick (length (q_queue (q_run q_init ops))))) = q_sends ops.
+Proof. intros ops. exact (conj (q_run_order ops q_init) (q_fifo_total ops)). Qed.
+Print Assumptions rate_limited_queue_is_fifo.
+
 (** FULL STATEMENT (false, finding F17): every sent line is at most [limit] OCTETS.
     Proved part: it holds when fmt and the message are plain ASCII (no NUL, CR, DLE; LF allowed
     in the message) ... *)
